@@ -106,6 +106,9 @@ def run(ctx):
             ctx.violation("correspondence", "model M1 and the real engine disagree on an annotated scenario; theorems C10_* no longer speak about the code; the binding oracle still holds.\n" + es.describe(i, res, scs, ne, corpus), found_input=False)
     if not okp and not ctx.violations:
         ctx.violation("proof", "a proof obligation of props/C10.v no longer checks:\n" + common.coq_error_excerpt(log), found_input=False)
+    # regression programs of repaired findings (annotations that were not binding)
+    from . import markers
+    markers.corpus_modules(ctx, "c10r", "annotations: repaired findings")
     ctx.write_evidence()
 
 
